@@ -206,6 +206,8 @@ class HandlerExplorer:
         self.requirement_sites: Dict[str, bool] = {}
         self.paths = 0
         self.record = False
+        self.dispatch_sites = {}
+        self.assume_env = {}
 
     # ---------------------------------------------------------------- conditions
     def flag_value(self, test: ast.AST, env) -> Optional[bool]:
@@ -260,7 +262,7 @@ class HandlerExplorer:
         if zp is None:
             raise AnalysisError(f"{g.loc}: handler-like function without a zone parameter")
         exits: List[set] = []
-        st0 = {"defs": {zp: set()}, "types": {zp: ztype}, "sub": None, "has_subs": None, "bools": {}}
+        st0 = {"defs": {zp: set()}, "types": {zp: ztype}, "sub": None, "has_subs": None, "bools": {}, "tested": set()}
         out = self._exec(g, g.node.body, zp, env, st0, exits)
         if out is not None:
             exits.append(set(out["defs"][zp]))
@@ -277,7 +279,7 @@ class HandlerExplorer:
 
     def _copy(self, st):
         return {"defs": {k: set(v) for k, v in st["defs"].items()}, "types": dict(st["types"]), "sub": st["sub"], "has_subs": st["has_subs"],
-                "bools": dict(st["bools"])}
+                "bools": dict(st["bools"]), "tested": set(st.get("tested", ()))}
 
     def _join(self, a, b):
         if a is None:
@@ -339,7 +341,12 @@ class HandlerExplorer:
                     var, member = it
                     ty = st["types"].get(var)
                     if ty is not None:
-                        st = self._exec(g, s.body if ty == member else s.orelse, zp, env, st, exits)
+                        if ty == member:
+                            st = self._copy(st)
+                            st["tested"].add(var)       # the code itself established the type of this zone
+                            st = self._exec(g, s.body, zp, env, st, exits)
+                        else:
+                            st = self._exec(g, s.orelse, zp, env, st, exits)
                         continue
                     if member == "<never>":
                         st = self._exec(g, s.orelse, zp, env, st, exits)
@@ -390,6 +397,13 @@ class HandlerExplorer:
             return st
         for t in targets:
             if t.module is self.module:
+                ty = st["types"].get(var)
+                if self.record and t in self.handler_set and ty is not None and ty in self.table_types_inv and var in st.get("tested", ()):
+                    want = self.table_types_inv[ty]
+                    site = f"{g.qualname}:handler for child type {ty}"
+                    ok = want is t
+                    prev = self.dispatch_sites.get(site, (True, None))
+                    self.dispatch_sites[site] = (prev[0] and ok, (g, call, ty, t, want))
                 res = self.eval_fn(t, env, st["types"].get(var))
                 if res == RAISES:
                     return None
@@ -426,6 +440,7 @@ class HandlerExplorer:
                 vb = self.p.resolve_attr_chain(main, v)
                 if bb is not None and bb.kind == "classattr" and vb is not None and vb.kind == "func":
                     table_types[vb.target] = bb.target[1]
+        self.table_types_inv = {ty: h for h, ty in table_types.items()}
         for combo in itertools.product([False, True], repeat=len(self.flags)):
             env = dict(zip(self.flags, combo))
             for rnd in range(4):
@@ -448,6 +463,8 @@ class HandlerExplorer:
 
     assume_env: Dict[frozenset, dict] = {}
     _active: set = set()
+    table_types_inv: Dict[str, FuncInfo] = {}
+    dispatch_sites: Dict[str, tuple] = {}
 
     def _kval(self, k):
         v = self.reg.tt.class_attrs.get(k)
@@ -493,6 +510,11 @@ def check_order(ctx: CheckContext, p: Program, r: Resolver, rule: str = "ORDER")
     for site, ok in sorted(ex.requirement_sites.items()):
         if ok:
             ctx.ob(rule, site, site.split(":")[0], True)
+    for site, (ok, info) in sorted(ex.dispatch_sites.items()):
+        g, call, ty, got, want = info
+        ctx.ob(rule + "-DISPATCH", site, f"{g.module.relpath}:{call.lineno}", ok,
+               "" if ok else f"a sub-zone of type {ex._zval(ty)} is handed to {got.name}(), but the handler registered for that type is {want.name}(): "
+                             f"the analyses that only {want.name}() performs are skipped for it")
     for site, d in sorted(ex.findings.items()):
         envs = d["envs"]
         # minimal description of the flag assignments under which it fails
